@@ -789,3 +789,389 @@ M.contract('exactly_lib.impls.types.file_matcher.impl.dir_contents:_RecursiveMod
            ensures={'the values of the two depth options, each in its own place': lambda self, tcds, result:
            same_opt(result.primitive(None)._min_depth, _opt_value(self._min_depth, tcds))
            and same_opt(result.primitive(None)._max_depth, _opt_value(self._max_depth, tcds))}, raises_only=())
+
+
+# ============================================================================== bounded stand-ins (never counted as proved)
+# The breadth-first generator as a whole, files() / matches on it, and the populate-then-match round trip are run
+# on REAL small directory trees (scratch directories under tempfile.mkdtemp(), removed afterwards) against
+# definitions written from the reference manual over a tree data structure.
+
+def _bounded_imports():
+    import itertools
+    import shutil
+    import tempfile
+    from pathlib import PurePosixPath
+    from exactly_lib.type_val_deps.types.path import path_ddvs
+    from exactly_lib.type_val_prims.files_condition import FilesCondition
+    from exactly_lib.impls.types.files_matcher.impl.matches import matches_full, matches_non_full
+    return itertools, shutil, tempfile, PurePosixPath, path_ddvs, FilesCondition, matches_full, matches_non_full
+
+
+# ---- trees: ('F',) regular file, ('D', (child, ...)) directory, ('LF',) / ('LD',) / ('LB',) symbolic link to an
+# external regular file / an external directory holding one file 'x' / nothing.  Children are named a, b, c ...
+
+_LEAF_KINDS = ('F', 'LF', 'LD', 'LB')
+
+
+def _trees(nodes, depth):
+    """all forests (tuples of trees, sorted: children are an unordered set) with exactly `nodes` nodes and directories
+    nested at most `depth` deep"""
+    import itertools
+    memo = {}
+
+    def tree(n, d):  # trees with n nodes
+        key = (n, d)
+        if key not in memo:
+            out = []
+            if n == 1:
+                out.extend((k,) for k in _LEAF_KINDS)
+            if d > 0:
+                for kids in forest(n - 1, d - 1):
+                    out.append(('D', kids))
+            memo[key] = out
+        return memo[key]
+
+    fmemo = {}
+
+    def forest(n, d):  # sorted tuples of trees with n nodes in total
+        key = (n, d)
+        if key not in fmemo:
+            out = set()
+            if n == 0:
+                out.add(())
+            for first in range(1, n + 1):
+                for t in tree(first, d):
+                    for rest in forest(n - first, d):
+                        out.add(tuple(sorted((t,) + rest, key=repr)))
+            fmemo[key] = sorted(out, key=repr)
+        return fmemo[key]
+
+    return forest(nodes, depth)
+
+
+def _names(n):
+    return ['abcdefgh'[i] for i in range(n)]
+
+
+def _build(root, forest, ext):
+    for name, t in zip(_names(len(forest)), forest):
+        p = os.path.join(root, name)
+        if t[0] == 'F':
+            open(p, 'w').close()
+        elif t[0] == 'D':
+            os.mkdir(p)
+            _build(p, t[1], ext)
+        elif t[0] == 'LF':
+            os.symlink(os.path.join(ext, 'file'), p)
+        elif t[0] == 'LD':
+            os.symlink(os.path.join(ext, 'dir'), p)
+        else:
+            os.symlink(os.path.join(ext, 'missing'), p)
+
+
+def _children(t):
+    """the (name, tree) entries of a directory node as a directory scan sees them (symbolic links followed)"""
+    if t[0] == 'D':
+        return list(zip(_names(len(t[1])), t[1]))
+    if t[0] == 'LD':
+        return [('x', ('F',))]
+    return None
+
+
+def _reference_files(forest, min_depth, max_depth, prune):
+    """Reference manual: depth 0 is the direct contents; a file at depth d is included iff min <= d <= max; the
+    contents of a directory is visited unless the directory is pruned (the directory itself is still included).
+    Returns {relative path: depth}."""
+    out = {}
+
+    def visit(entries, rel, depth):
+        for name, t in entries:
+            path = rel + [name]
+            if (min_depth is None or depth >= min_depth) and (max_depth is None or depth <= max_depth):
+                out['/'.join(path)] = depth
+            kids = _children(t)
+            if kids is not None and not prune(name, t) and (max_depth is None or depth < max_depth):
+                visit(kids, path, depth + 1)
+
+    visit(list(zip(_names(len(forest)), forest)), [], 0)
+    return out
+
+
+class _StubMatcher:
+    """a FileMatcher for the stand-in: decides on the base name and on `is a directory` (symbolic links followed)"""
+
+    def __init__(self, pred):
+        self.pred = pred
+
+    def matches_w_trace(self, model):
+        return MatchingResult(bool(self.pred(model.path.primitive.name, model.path.primitive.is_dir())), None)
+
+    def structure(self):
+        return None
+
+
+_PRUNERS = {
+    'none': (None, lambda name, t: False),
+    'named-a': (lambda: _StubMatcher(lambda name, is_dir: name == 'a'), lambda name, t: name == 'a'),
+    'all': (lambda: constant_matcher.MatcherWithConstantResult(True), lambda name, t: True),
+}
+_SELECTORS = {
+    'none': (None, lambda name, t: True),
+    'dirs': (lambda: _StubMatcher(lambda name, is_dir: is_dir), lambda name, t: t[0] in ('D', 'LD')),
+    'not-b': (lambda: _StubMatcher(lambda name, is_dir: name != 'b'), lambda name, t: name != 'b'),
+}
+
+
+def _node_at(forest, rel):
+    entries = list(zip(_names(len(forest)), forest))
+    t = None
+    for comp in rel.split('/'):
+        t = dict(entries)[comp]
+        entries = _children(t) or []
+    return t
+
+
+@M.bounded('recursive generator on real trees')
+def _bounded_generator(ctx):
+    itertools, shutil, tempfile, PurePosixPath, path_ddvs, FilesCondition, matches_full, matches_non_full = \
+        _bounded_imports()
+    max_nodes, max_depth = (5, 3) if ctx.tier == 'thorough' else (4, 3)
+    limits = [None, 0, 1, 2, 3]
+    failures = []
+    cases = 0
+    n_trees = 0
+    scratch = tempfile.mkdtemp(prefix='pyvc-c15-')
+    try:
+        ext = os.path.join(scratch, 'ext')
+        os.mkdir(ext)
+        open(os.path.join(ext, 'file'), 'w').close()
+        os.mkdir(os.path.join(ext, 'dir'))
+        open(os.path.join(ext, 'dir', 'x'), 'w').close()
+        for n in range(0, max_nodes + 1):
+            for forest in _trees(n, max_depth):
+                n_trees += 1
+                root = os.path.join(scratch, 't%d' % n_trees)
+                os.mkdir(root)
+                _build(root, forest, ext)
+                dp = path_ddvs.absolute_file_name(root).value_when_no_dir_dependencies__d()
+                # non-recursive: the direct contents
+                actual = sorted(str(f.relative_to_root_dir) for f in models.non_recursive(dp).files())
+                cases += 1
+                if actual != _names(len(forest)):
+                    failures.append({'input': repr((forest, 'non-recursive')), 'expected': _names(len(forest)),
+                                     'actual': actual})
+                for mn, mx in itertools.product(limits, limits):
+                    for pname, (mk_prune, prune_ref) in _PRUNERS.items():
+                        for sname, (mk_sel, sel_ref) in _SELECTORS.items():
+                            model = models.recursive(dp, mn, mx)
+                            if mk_prune is not None:
+                                model = model.prune(mk_prune())
+                            if mk_sel is not None:
+                                model = model.sub_set(mk_sel())
+                            files = list(model.files())
+                            actual = [str(f.relative_to_root_dir) for f in files]
+                            ref = _reference_files(forest, mn, mx, prune_ref)
+                            expected = {p: d for p, d in ref.items()
+                                        if sel_ref(p.rpartition('/')[2], _node_at(forest, p))}
+                            depths = [a.count('/') for a in actual]
+                            ok = sorted(actual) == sorted(expected) and len(set(actual)) == len(actual) \
+                                and depths == sorted(depths) \
+                                and all(str(f.path.primitive) == os.path.join(root, str(f.relative_to_root_dir))
+                                        for f in files)
+                            cases += 1
+                            if not ok:
+                                failures.append({'input': repr((forest, mn, mx, pname, sname)),
+                                                 'expected': sorted(expected), 'actual': actual})
+                shutil.rmtree(root)
+    finally:
+        shutil.rmtree(scratch, ignore_errors=True)
+    ctx.bounded_result('models._FilesGeneratorForRecursive.generate / _FilesGeneratorForNonRecursive.generate / '
+                       '_FilesMatcherModelForDir.files on real directories',
+                       bound='all trees of regular files, directories and symbolic links (to a file, to a directory, '
+                             'dangling) with <= %d nodes, depth <= %d; (min, max) in {None,0..3}^2; 3 pruning x 3 '
+                             'selection matchers' % (max_nodes, max_depth),
+                       cases=cases, exhaustive=True, failures=failures,
+                       note='%d trees; compared: set of relative paths, no duplicates, breadth-first order '
+                            '(non-decreasing depth), absolute path == root/relative' % n_trees)
+
+
+# ---- FILE-LISTs: ('file', name, '=' | '+=', token) / ('dir', name, '=' | '+=', nested list or None)
+
+def _reference_populate(entries, tree, base=()):
+    """Reference manual: entries are applied in the listed order.  `=` requires that the name does not exist and
+    creates missing parent directories; `+=` requires an existing file of the right type.  A regular file holds the
+    concatenation of the contents given to it.  Raises _HardError at the first entry that cannot be applied.
+    `tree`: {path tuple: 'D' or the contents of a regular file} -- modified in place."""
+
+    def ensure_parents(path):
+        for i in range(len(base) + 1, len(path)):
+            p = path[:i]
+            if p in tree:
+                if tree[p] != 'D':
+                    raise _HardError(p)
+            else:
+                tree[p] = 'D'
+
+    for kind, name, mod, arg in entries:
+        path = base + tuple(name.split('/'))
+        if mod == '=':
+            if path in tree:
+                raise _HardError(path)
+            ensure_parents(path)
+            if kind == 'file':
+                tree[path] = arg
+            else:
+                tree[path] = 'D'
+                if arg is not None:
+                    _reference_populate(arg, tree, path)
+        else:
+            if kind == 'file':
+                if path not in tree or tree[path] == 'D':
+                    raise _HardError(path)
+                tree[path] += arg
+            else:
+                if tree.get(path) != 'D':
+                    raise _HardError(path)
+                if arg is not None:
+                    _reference_populate(arg, tree, path)
+
+
+class _HardError(Exception):
+    pass
+
+
+class _Contents:
+    def __init__(self, text):
+        self.text = text
+
+    def contents(self):
+        return self
+
+    def write_to(self, f):
+        f.write(self.text)
+
+
+def _real_files_source(entries):
+    specs = []
+    for kind, name, mod, arg in entries:
+        modification = ModificationType.CREATE if mod == '=' else ModificationType.APPEND
+        if kind == 'file':
+            maker = regular_maker.RegularFileMaker(modification, _Contents(arg), None)
+        else:
+            maker = dir_maker.DirFileMaker(modification, None if arg is None else _real_files_source(arg))
+        specs.append(file_list.FileSpecification(name, maker))
+    return file_list.Primitive(specs)
+
+
+def _disk_tree(root):
+    out = {}
+    for d, dirs, files in os.walk(root):
+        rel = tuple(os.path.relpath(d, root).split(os.sep)) if d != root else ()
+        for x in dirs:
+            out[rel + (x,)] = 'D'
+        for x in files:
+            with open(os.path.join(d, x)) as f:
+                out[rel + (x,)] = f.read()
+    return out
+
+
+def _file_lists(max_len, nested=True):
+    import itertools
+    atoms = [('file', 'a', '=', '1'), ('file', 'a', '+=', '2'), ('file', 'd/a', '=', '3'), ('file', 'd', '=', '4'),
+             ('dir', 'd', '=', None), ('dir', 'd', '+=', None), ('dir', 'd/e', '=', None), ('file', 'd/e/a', '+=', '5')]
+    if nested:
+        inner = [('file', 'a', '=', '6'), ('file', 'a', '+=', '7'), ('dir', 'e', '=', None)]
+        for k in range(0, 3):
+            for sub in itertools.permutations(inner, k):
+                atoms.append(('dir', 'd', '=', tuple(sub)))
+                atoms.append(('dir', 'd', '+=', tuple(sub)))
+    for n in range(0, max_len + 1):
+        for lst in itertools.product(atoms, repeat=n):
+            yield lst
+
+
+@M.bounded('populate a directory from a file list, then match it')
+def _bounded_populate(ctx):
+    itertools, shutil, tempfile, PurePosixPath, path_ddvs, FilesCondition, matches_full, matches_non_full = \
+        _bounded_imports()
+    from exactly_lib.util.description_tree import details
+
+    class Condition(FilesCondition):
+        def __init__(self, files):
+            self._files = files
+
+        @property
+        def files(self):
+            return self._files
+
+        @property
+        def describer(self):
+            return details.empty()
+
+    max_len = 3 if ctx.tier == 'thorough' else 2
+    failures = []
+    cases = 0
+    scratch = tempfile.mkdtemp(prefix='pyvc-c15-')
+    try:
+        for i, entries in enumerate(_file_lists(max_len)):
+            root = os.path.join(scratch, 'p%d' % i)
+            os.mkdir(root)
+            dp = path_ddvs.absolute_file_name(root).value_when_no_dir_dependencies__d()
+            expected_tree = {}
+            try:
+                _reference_populate(entries, expected_tree)
+                expected_error = False
+            except _HardError:
+                expected_error = True
+            try:
+                _real_files_source(entries).populate(dp)
+                actual_error = False
+            except HardErrorException:
+                actual_error = True
+            except Exception as ex:   # anything but HARD_ERROR contradicts the statement
+                actual_error = repr(ex)
+            actual_tree = _disk_tree(root)
+            cases += 1
+            if actual_error != expected_error or actual_tree != expected_tree:
+                failures.append({'input': repr(entries), 'expected': repr((expected_error, expected_tree)),
+                                 'actual': repr((actual_error, actual_tree))})
+            # the populated tree matches the condition made of exactly its paths -- and no other
+            paths = sorted('/'.join(p) for p in actual_tree)
+            model = models.recursive(dp)
+            is_dir = _StubMatcher(lambda name, d: d)
+            not_dir = _StubMatcher(lambda name, d: not d)
+            exact = {PurePosixPath(p): (is_dir if actual_tree[tuple(p.split('/'))] == 'D' else not_dir) for p in paths}
+            more = dict(exact)
+            more[PurePosixPath('zz')] = None
+            checks = [('full, exact', matches_full._Applier, exact, True),
+                      ('non-full, exact', matches_non_full._Applier, exact, True),
+                      ('full, one more expected', matches_full._Applier, more, False),
+                      ('non-full, one more expected', matches_non_full._Applier, more, False)]
+            if paths:
+                less = {k: v for k, v in exact.items() if k != PurePosixPath(paths[-1])}
+                wrong = dict(exact)
+                wrong[PurePosixPath(paths[0])] = (not_dir if exact[PurePosixPath(paths[0])] is is_dir else is_dir)
+                checks += [('full, one less expected', matches_full._Applier, less, False),
+                           ('non-full, one less expected', matches_non_full._Applier, less, True),
+                           ('full, one matcher rejects', matches_full._Applier, wrong, False),
+                           ('non-full, one matcher rejects', matches_non_full._Applier, wrong, False)]
+            for label, applier, cond, expected in checks:
+                actual = applier('matches', Condition(cond), model).apply().value
+                cases += 1
+                if actual is not expected:
+                    failures.append({'input': repr((entries, label)), 'expected': expected, 'actual': actual})
+            n = sum(1 for _ in model.files())
+            cases += 1
+            if n != len(paths) or (len(list(model.files())) == 0) != (not paths):
+                failures.append({'input': repr((entries, 'num-files / is-empty')), 'expected': len(paths), 'actual': n})
+            shutil.rmtree(root)
+    finally:
+        shutil.rmtree(scratch, ignore_errors=True)
+    ctx.bounded_result('file_list.Primitive.populate with the real makers on real directories, then matches [-full], '
+                       'num-files, is-empty on the result',
+                       bound='all FILE-LISTs of <= %d entries over %d entry forms (file/dir, = and +=, nested lists, '
+                             'clashes, parents in names)' % (max_len, len(list(_file_lists(1))) - 1),
+                       cases=cases, exhaustive=True, failures=failures,
+                       note='compared: HARD_ERROR or not, the resulting tree with file contents (entries applied in the '
+                            'listed order), verdicts of matches / matches -full against the exact, a larger, a smaller '
+                            'and a rejecting condition')
